@@ -1,5 +1,7 @@
 package main
 
+import "go/types"
+
 // Pure lemmas over spec functions (no code): each `lemma` clause of the
 // contract files becomes one obligation of the pseudo-function "lemmas".
 
@@ -54,6 +56,11 @@ func loadAxioms() {
 		declFun("nat", "(declare-fun nat (BS) Int)")
 		t := UF("bs_of", SBS, zarr, BVLit(0, 64), n)
 		globalAxioms = append(globalAxioms, Forall([]*Term{n}, Eq(App("nat", SInt, t), IntLit(0)), t))
+	}
+	// the package-level error value io.EOF is not nil (assumed fact about package io)
+	{
+		et := types.Universe.Lookup("error").Type()
+		globalAxioms = append(globalAxioms, Neq(Acc("itag", Select(globalState().mem(et), ObjRef(IntLit(int64(extGlobalID("io.EOF")))))), IntLit(0)))
 	}
 	if len(specs.Axioms) == 0 {
 		return
